@@ -33,7 +33,7 @@
      defaults: `$TTL` default before previous TTL; previous class), owner absolute / relative /
      `@` / omitted (a leading blank ⇒ previous owner); all gaps of a record general (so records
      may span lines in parentheses opened anywhere, the usual `SOA ( … )` style included);
-     `$ORIGIN`, `$TTL` and `$INCLUDE` directive lines (the latter yield the include request with
+     `$ORIGIN`, `$TTL` and `$INCLUDE` directive lines, with general gaps too (the latter yield the include request with
      the path — a quoted or unquoted string — and the origin given or current); blank and
      comment-only lines; every line ending LF or CRLF;
    * whole files of such entries: exactly the denoted records, in order, with line numbers
@@ -199,18 +199,18 @@ private def sU : PString := ⟨false, [(99, .raw), (59, .esc), (100, .raw)]⟩
 private def sD : PString := ⟨false, [(100, .dec)]⟩
 
 /-- the text (`¶` = LF, `¬` = CRLF, `→` = tab):
-    `$ORIGIN t.¶` `a\.b.\010c. iN 5 TYPE1 \# 4 01020304 ;x¬` `→¬` ` →TYPE16→\#(2;h¶ 0161)¶` `$TTL 9¬`
+    `$ORIGIN t.¶` `a\.b.\010c. iN 5 TYPE1 \# 4 01020304 ;x¬` `→¬` ` →TYPE16→\#(2;h¶ 0161)¶` `$TTL→(;x¶ 9 )¬`
     `w CLASS3 TYPE99 \# 0¶` `@ Ns a¶` ` mx 10 m\\\¶.\120.¶` ` SOA @ a ( 1 ;s¬ 2¶→3 4 4294967295 ) ;d¶`
     `a→( 7;¶→iN ) Srv 1 2 3 @¶` ` MINFO a m\\\¶.\120. ;¶` ` a (192.0.2.1)¬` ` (txt "a¶b\"" c\;d¬ \100)¶`
-    ` Hinfo "" \100¶` ` aAaA 2001:db8:0:0:0:0:ff:ffff¶` `$INCLUDE "x y" a¶` `$INCLUDE→z ;¬` -/
+    ` Hinfo "" \100¶` ` aAaA 2001:db8:0:0:0:0:ff:ffff¶` `$INCLUDE "x y" (a)¶` `$INCLUDE→z ;¬` -/
 def exFile : List PEntry :=
-  [.origin [[(116, .raw)]] [32] [] [] false,
+  [.origin [[(116, .raw)]] [.blank false] [] [] false,
    .record ⟨.named (.abs [[(97, .raw), (46, .esc), (98, .raw)], [(10, .dec), (99, .raw)]]), some 5,
       some (.mnemonic [105, 78] 1), true, .generic 1, .generic [1, 2, 3, 4], [], [], [.blank false], [59, 120], true⟩,
    .blank [9] [] true,
    .record ⟨.same, none, none, false, .generic 16, .generic [1, 97], [[.blank false, .blank true]],
       [[.blank true], [.openParen], [.newline [59, 104] false, .blank false]], [.closeParen], [], false⟩,
-   .ttl 9 [32] [] [] true,
+   .ttl 9 [.blank true, .openParen, .newline [59, 120] false] [.blank false, .closeParen] [] true,
    .record ⟨.named (.rel [] [(119, .raw)]), none, some (.generic 3), false, .generic 99, .generic [], [], [], [], [], false⟩,
    .record ⟨.named .atSign, none, none, true, .mnemonic [78, 115] 2, .name nA, [], [], [], [], false⟩,
    .record ⟨.same, none, none, true, .mnemonic [109, 120] 15, .mx 10 nMail, [], [], [], [], false⟩,
@@ -228,8 +228,8 @@ def exFile : List PEntry :=
       [[.blank false], [.blank false], [.newline [] true, .blank false]], [.closeParen], [], false⟩,
    .record ⟨.same, none, none, true, .mnemonic [72, 105, 110, 102, 111] 13, .hinfo ⟨true, []⟩ sD, [], [], [], [], false⟩,
    .record ⟨.same, none, none, true, .mnemonic [97, 65, 97, 65] 28, .aaaa [8193, 3512, 0, 0, 0, 0, 255, 65535], [], [], [], [], false⟩,
-   .incl ⟨true, [(120, .raw), (32, .raw), (121, .raw)]⟩ (some nA) [32] [32] [] [] false,
-   .incl ⟨false, [(122, .raw)]⟩ none [9] [] [32] [59] true]
+   .incl ⟨true, [(120, .raw), (32, .raw), (121, .raw)]⟩ (some nA) [.blank false] [.blank false, .openParen] [.closeParen] [] false,
+   .incl ⟨false, [(122, .raw)]⟩ none [.blank true] [] [.blank false] [59] true]
 
 /-- the example file is well-formed and denotes twelve records and two include requests -/
 theorem exFile_ok :
@@ -237,19 +237,19 @@ theorem exFile_ok :
     denoteFile validB exFile (toSCtx {}) 1 =
       some [.record ⟨2, [3, 97, 46, 98, 2, 10, 99, 0], 5, 1, 1, [1, 2, 3, 4]⟩,
             .record ⟨4, [3, 97, 46, 98, 2, 10, 99, 0], 5, 1, 16, [1, 97]⟩,
-            .record ⟨7, [1, 119, 1, 116, 0], 9, 3, 99, []⟩,
-            .record ⟨8, [1, 116, 0], 9, 3, 2, [1, 97, 1, 116, 0]⟩,
-            .record ⟨9, [1, 116, 0], 9, 3, 15, [0, 10, 3, 109, 92, 10, 1, 120, 0]⟩,
-            .record ⟨11, [1, 116, 0], 9, 3, 6, [1, 116, 0, 1, 97, 1, 116, 0, 0, 0, 0, 1, 0, 0, 0, 2, 0, 0, 0, 3,
+            .record ⟨8, [1, 119, 1, 116, 0], 9, 3, 99, []⟩,
+            .record ⟨9, [1, 116, 0], 9, 3, 2, [1, 97, 1, 116, 0]⟩,
+            .record ⟨10, [1, 116, 0], 9, 3, 15, [0, 10, 3, 109, 92, 10, 1, 120, 0]⟩,
+            .record ⟨12, [1, 116, 0], 9, 3, 6, [1, 116, 0, 1, 97, 1, 116, 0, 0, 0, 0, 1, 0, 0, 0, 2, 0, 0, 0, 3,
               0, 0, 0, 4, 255, 255, 255, 255]⟩,
-            .record ⟨14, [1, 97, 1, 116, 0], 7, 1, 33, [0, 1, 0, 2, 0, 3, 1, 116, 0]⟩,
-            .record ⟨16, [1, 97, 1, 116, 0], 9, 1, 14, [1, 97, 1, 116, 0, 3, 109, 92, 10, 1, 120, 0]⟩,
-            .record ⟨18, [1, 97, 1, 116, 0], 9, 1, 1, [192, 0, 2, 1]⟩,
-            .record ⟨19, [1, 97, 1, 116, 0], 9, 1, 16, [4, 97, 10, 98, 34, 3, 99, 59, 100, 1, 100]⟩,
-            .record ⟨22, [1, 97, 1, 116, 0], 9, 1, 13, [0, 1, 100]⟩,
-            .record ⟨23, [1, 97, 1, 116, 0], 9, 1, 28, [32, 1, 13, 184, 0, 0, 0, 0, 0, 0, 0, 0, 0, 255, 255, 255]⟩,
-            .incl 24 [120, 32, 121] (some [1, 97, 1, 116, 0]),
-            .incl 25 [122] (some [1, 116, 0])] := by
+            .record ⟨15, [1, 97, 1, 116, 0], 7, 1, 33, [0, 1, 0, 2, 0, 3, 1, 116, 0]⟩,
+            .record ⟨17, [1, 97, 1, 116, 0], 9, 1, 14, [1, 97, 1, 116, 0, 3, 109, 92, 10, 1, 120, 0]⟩,
+            .record ⟨19, [1, 97, 1, 116, 0], 9, 1, 1, [192, 0, 2, 1]⟩,
+            .record ⟨20, [1, 97, 1, 116, 0], 9, 1, 16, [4, 97, 10, 98, 34, 3, 99, 59, 100, 1, 100]⟩,
+            .record ⟨23, [1, 97, 1, 116, 0], 9, 1, 13, [0, 1, 100]⟩,
+            .record ⟨24, [1, 97, 1, 116, 0], 9, 1, 28, [32, 1, 13, 184, 0, 0, 0, 0, 0, 0, 0, 0, 0, 255, 255, 255]⟩,
+            .incl 25 [120, 32, 121] (some [1, 97, 1, 116, 0]),
+            .incl 26 [122] (some [1, 116, 0])] := by
   refine ⟨?_, by decide +kernel⟩
   have wfA : WFName nA := by unfold nA WFName; exact ⟨by decide, by simp [LabelsOK, labelOctets], by decide⟩
   have wfMail : WFName nMail := by
@@ -259,7 +259,8 @@ theorem exFile_ok :
   intro e he
   simp only [exFile, List.mem_cons, List.mem_nil_iff, or_false] at he
   rcases he with rfl | rfl | rfl | rfl | rfl | rfl | rfl | rfl | rfl | rfl | rfl | rfl | rfl | rfl | rfl | rfl | rfl
-  · exact ⟨⟨by simp, by decide, by simp [LabelsOK, labelOctets], by decide⟩, by simp, by decide, by decide, .inl rfl⟩
+  · exact ⟨⟨by simp, by decide, by simp [LabelsOK, labelOctets], by decide⟩, false, GapOK_of_B (by decide),
+      TailOK_of_B (by decide)⟩
   · refine ⟨?_, by decide, ?_,
       ⟨by simp [WFType], by decide, by decide, by decide⟩, by simp [WFRdata], gaps_ok_of_B _ (by decide)⟩
     · intro n hn; cases hn
@@ -268,7 +269,7 @@ theorem exFile_ok :
   · exact ⟨by decide, .inl rfl⟩
   · exact ⟨noOwner, by decide, (by intro c hc; cases hc),
       ⟨by simp [WFType], by decide, by decide, by decide⟩, by simp [WFRdata], gaps_ok_of_B _ (by decide)⟩
-  · exact ⟨by decide, by simp, by decide, by decide, .inl rfl⟩
+  · exact ⟨by decide, true, GapOK_of_B (by decide), TailOK_of_B (by decide)⟩
   · refine ⟨?_, by decide, ?_,
       ⟨by simp [WFType], by decide, by decide, by decide⟩, by simp [WFRdata], gaps_ok_of_B _ (by decide)⟩
     · intro n hn; cases hn
@@ -300,28 +301,29 @@ theorem exFile_ok :
       ⟨⟨by decide, by decide, by decide⟩, ⟨by decide, by decide, by decide⟩, by decide⟩, gaps_ok_of_B _ (by decide)⟩
   · exact ⟨noOwner, by decide, (by intro c hc; cases hc),
       ⟨mAaaa, by decide, by decide, by decide⟩, ⟨by decide, by decide⟩, gaps_ok_of_B _ (by decide)⟩
-  · refine ⟨⟨by decide, by decide, by decide⟩, ?_, by simp, by decide, by decide, .inl rfl⟩
-    intro n hn; cases hn; exact ⟨wfA, by simp, by decide⟩
-  · exact ⟨⟨by decide, by decide, by decide⟩, (by intro n hn; cases hn), by simp, by decide, by decide,
-      .inr ⟨[], rfl, by simp⟩⟩
+  · refine ⟨⟨by decide, by decide, by decide⟩, false, true, GapOK_of_B (by decide), ?_, (by intro h; cases h),
+      TailOK_of_B (by decide)⟩
+    intro n hn; cases hn; exact ⟨wfA, GapOK_of_B (by decide)⟩
+  · exact ⟨⟨by decide, by decide, by decide⟩, false, false, GapOK_of_B (by decide), (by intro n hn; cases hn),
+      (fun _ => rfl), TailOK_of_B (by decide)⟩
 
 /-- … so the theorem applies to it -/
 example : parseAll (renderFile exFile) {} =
     [.item (.record 2 ⟨[3, 97, 46, 98, 2, 10, 99, 0], 5, 1, 1, [1, 2, 3, 4]⟩),
      .item (.record 4 ⟨[3, 97, 46, 98, 2, 10, 99, 0], 5, 1, 16, [1, 97]⟩),
-     .item (.record 7 ⟨[1, 119, 1, 116, 0], 9, 3, 99, []⟩),
-     .item (.record 8 ⟨[1, 116, 0], 9, 3, 2, [1, 97, 1, 116, 0]⟩),
-     .item (.record 9 ⟨[1, 116, 0], 9, 3, 15, [0, 10, 3, 109, 92, 10, 1, 120, 0]⟩),
-     .item (.record 11 ⟨[1, 116, 0], 9, 3, 6, [1, 116, 0, 1, 97, 1, 116, 0, 0, 0, 0, 1, 0, 0, 0, 2, 0, 0, 0, 3,
+     .item (.record 8 ⟨[1, 119, 1, 116, 0], 9, 3, 99, []⟩),
+     .item (.record 9 ⟨[1, 116, 0], 9, 3, 2, [1, 97, 1, 116, 0]⟩),
+     .item (.record 10 ⟨[1, 116, 0], 9, 3, 15, [0, 10, 3, 109, 92, 10, 1, 120, 0]⟩),
+     .item (.record 12 ⟨[1, 116, 0], 9, 3, 6, [1, 116, 0, 1, 97, 1, 116, 0, 0, 0, 0, 1, 0, 0, 0, 2, 0, 0, 0, 3,
               0, 0, 0, 4, 255, 255, 255, 255]⟩),
-     .item (.record 14 ⟨[1, 97, 1, 116, 0], 7, 1, 33, [0, 1, 0, 2, 0, 3, 1, 116, 0]⟩),
-     .item (.record 16 ⟨[1, 97, 1, 116, 0], 9, 1, 14, [1, 97, 1, 116, 0, 3, 109, 92, 10, 1, 120, 0]⟩),
-     .item (.record 18 ⟨[1, 97, 1, 116, 0], 9, 1, 1, [192, 0, 2, 1]⟩),
-     .item (.record 19 ⟨[1, 97, 1, 116, 0], 9, 1, 16, [4, 97, 10, 98, 34, 3, 99, 59, 100, 1, 100]⟩),
-     .item (.record 22 ⟨[1, 97, 1, 116, 0], 9, 1, 13, [0, 1, 100]⟩),
-     .item (.record 23 ⟨[1, 97, 1, 116, 0], 9, 1, 28, [32, 1, 13, 184, 0, 0, 0, 0, 0, 0, 0, 0, 0, 255, 255, 255]⟩),
-     .item (.incl 24 [120, 32, 121] (some [1, 97, 1, 116, 0])),
-     .item (.incl 25 [122] (some [1, 116, 0]))] := by
+     .item (.record 15 ⟨[1, 97, 1, 116, 0], 7, 1, 33, [0, 1, 0, 2, 0, 3, 1, 116, 0]⟩),
+     .item (.record 17 ⟨[1, 97, 1, 116, 0], 9, 1, 14, [1, 97, 1, 116, 0, 3, 109, 92, 10, 1, 120, 0]⟩),
+     .item (.record 19 ⟨[1, 97, 1, 116, 0], 9, 1, 1, [192, 0, 2, 1]⟩),
+     .item (.record 20 ⟨[1, 97, 1, 116, 0], 9, 1, 16, [4, 97, 10, 98, 34, 3, 99, 59, 100, 1, 100]⟩),
+     .item (.record 23 ⟨[1, 97, 1, 116, 0], 9, 1, 13, [0, 1, 100]⟩),
+     .item (.record 24 ⟨[1, 97, 1, 116, 0], 9, 1, 28, [32, 1, 13, 184, 0, 0, 0, 0, 0, 0, 0, 0, 0, 255, 255, 255]⟩),
+     .item (.incl 25 [120, 32, 121] (some [1, 97, 1, 116, 0])),
+     .item (.incl 26 [122] (some [1, 116, 0]))] := by
   rw [C23_records_partial exFile exFile_ok.1 {} CtxWF_default _ exFile_ok.2]
   rfl
 
